@@ -6,6 +6,7 @@ import (
 	"bytes"
 	"context"
 	"io"
+	"math/bits"
 	"sync"
 )
 
@@ -111,4 +112,29 @@ func VerifC06_ChunkStreamStall() {
 		}
 		verifAllStored(dst.verifStore, idx, "ChunkStream")
 	}
+}
+
+// VerifC02_Discriminator: the boundary discriminator derived from avg, compared with casync's
+// formula avg / (1.33237515 - 1.42888852e-7*avg) evaluated in exact integer arithmetic (floor of
+// avg*10^15 / (1332375150000000 - 142888852*avg), 128-bit).  Floating point is not symbolic in
+// this engine: the values are enumerated (every avg the CLI can express in KiB up to 8 MiB, and
+// every avg from 48 to 20000 bytes).
+func VerifC02_Discriminator() {
+	ref := func(avg uint64) uint32 {
+		hi, lo := bits.Mul64(avg, 1000000000000000)
+		den := 1332375150000000 - 142888852*avg
+		q, _ := bits.Div64(hi, lo, den)
+		return uint32(q)
+	}
+	lo, hi := uint64(48), uint64(20000)
+	if vChoose("family", 2) == 1 {
+		for kib := uint64(1); kib <= 8192; kib++ {
+			vAssert(discriminatorFromAvg(kib*1024) == ref(kib*1024), "discriminator differs from casync's formula for an average given in KiB")
+		}
+	} else {
+		for avg := lo; avg <= hi; avg++ {
+			vAssert(discriminatorFromAvg(avg) == ref(avg), "discriminator differs from casync's formula for a small average")
+		}
+	}
+	vCover("compared")
 }
